@@ -1,14 +1,59 @@
-(* C18 Command line, watch roots, common parent and mounts behave as documented.
-   (grammar equivalence, common-parent and mount theorems: ParamsProofs, when integrated) *)
-From K Require Import Str Main MainProofs.
+(* C18 Command line, watch roots, common parent and mounts behave as documented. *)
+From K Require Import Str Main MainProofs ParamsProofs.
 
-(* a malformed command line is rejected before anything is mounted or watched *)
+(* The parser accepts exactly the documented language
+     [-h | -v | -c PATH | -d PATH | -w PATH | -e PATH]...
+   with -c and -d at most once and -h / -v ending the scan, and yields exactly its
+   denotation: the configuration and privilege-dropping paths (default "."), the
+   write roots (default ".") and exec roots (default "/"), help/version. *)
+Theorem C18_parse_iff_valid : forall (args : list str) (p : params),
+  parse_params args = inr p <->
+  exists its rest, args = items_args its ++ rest /\ cmdline its rest /\ p = denote its.
+Proof. exact parse_params_iff. Qed.
+Print Assumptions C18_parse_iff_valid.
+
+(* every other command line is rejected, with the matching reason *)
+Theorem C18_reject_iff_invalid : forall (args : list str) (e : perr),
+  parse_params args = inl e <->
+  exists its rest, args = items_args its ++ rest /\ nostop its /\ valid_items its /\ parse_failure its rest e.
+Proof. exact parse_params_error_iff. Qed.
+Print Assumptions C18_reject_iff_invalid.
+
+(* ... before anything is mounted or watched *)
 Theorem C18_malformed_no_side_effect : forall (env : env) (e : perr),
   parse_params (e_args env) = inl e -> main env = [OExit 1 (Some T_parse)].
-Proof. intros env e H. unfold main. rewrite H. reflexivity. Qed.
+Proof. exact parse_error_no_effect. Qed.
 Print Assumptions C18_malformed_no_side_effect.
 
-(* defaults: current directory for writes and privilege dropping, / for executions *)
+(* relative names are taken relative to the deepest directory containing the
+   roots: for canonical paths the offset is 1 when only "/" is common, else the
+   length of the longest common component prefix (as a path) + 1 *)
+Theorem C18_common_parent : forall (ca cb : list str),
+  Forall comp_ok ca -> Forall comp_ok cb ->
+  common_len (path_of ca) (path_of cb) =
+  match lcp ca cb with [] => 1 | l => S (length (path_of l)) end.
+Proof. exact common_len_components. Qed.
+Print Assumptions C18_common_parent.
+
+Theorem C18_lcp_is_greatest_common_prefix : forall (ca cb : list str),
+  exists ra rb, ca = lcp ca cb ++ ra /\ cb = lcp ca cb ++ rb /\
+                match ra, rb with x :: _, y :: _ => x <> y | _, _ => True end.
+Proof. exact lcp_spec. Qed.
+Print Assumptions C18_lcp_is_greatest_common_prefix.
+
+(* a directory is bind-mounted onto itself exactly when it is not already a
+   mount point (a root given twice is mounted once), and every root is watched *)
+Theorem C18_mount_iff_not_mounted :
+  forall (is_exec : bool) (env : env) (roots mounted : list str) (n : nat) (prev : option str) (cpl : nat)
+         (evs : list out) (mounted' : list str) (n' cpl' : nat),
+  mark_roots is_exec env roots mounted n prev cpl = (evs, true, mounted', n', cpl') ->
+  forall r m, In r roots -> assoc r (e_realpath env) = Some m ->
+    In (OMark is_exec m) evs /\
+    (In (OMount m) evs <-> memstr m mounted = false) /\
+    mount_count m evs <= 1.
+Proof. exact mount_iff_not_mounted. Qed.
+Print Assumptions C18_mount_iff_not_mounted.
+
 Theorem C18_defaults : parse_params [] = inr (mkP false false None (Some dot_str) [dot_str] [root_str]).
 Proof. reflexivity. Qed.
 Print Assumptions C18_defaults.
